@@ -40,7 +40,7 @@ CONSTANTS
  Intervals = {}
  Fire = FALSE
  Close = FALSE
- Erase = FALSE
+ Erase = TRUE
  IdOps = FALSE
  Crash = TRUE
  Garbage = FALSE
@@ -53,4 +53,5 @@ CONSTANTS
  Regulate_ = FALSE
  OptFlips = {}
  FreeIdSends = FALSE
+ LateSends = FALSE
  Msgs = {"m1"}
